@@ -584,6 +584,12 @@ static void do_a(const char *kinds, char *ops)
             sscanf(rest, "%ld %ld", &a, &b);
             rc = ABT_pool_push_thread(AP[a].h, AT[b].h);
             oprintf(" c%d", rc);
+        } else if (strcmp(k, "pm") == 0) {
+            /* the batched variant with a batch of one (built-in target pools only: it needs push_many): same contract as
+             * push_thread */
+            sscanf(rest, "%ld %ld", &a, &b);
+            rc = ABT_pool_push_threads(AP[a].h, &AT[b].h, 1);
+            oprintf(" c%d", rc);
         } else if (strcmp(k, "pu") == 0) {
             sscanf(rest, "%ld %ld", &a, &b);
             ABT_unit u;
